@@ -20,6 +20,11 @@ v("C09","equiv: rename locals in readSome",PIPE,"\tn, err := p.store.readSome(b)
 v("C09","equiv: swap disjuncts",PIPE,"if err != nil || n != 0 {\n\t\tp.rwait.Signal()","if n != 0 || err != nil {\n\t\tp.rwait.Signal()",kind="equiv")
 v("C09","equiv: Broadcast instead of Signal on close",PIPE,"\tp.rwait.Signal()\n\tp.wwait.Signal()\n\treturn p.store.wclose()","\tp.rwait.Broadcast()\n\tp.wwait.Broadcast()\n\treturn p.store.wclose()",kind="equiv")
 
+def ve(prop, name, edits, expect="", kind="break"):
+    V.setdefault(prop, []).append(dict(name=name, kind=kind, expect=expect, edits=[dict(file=f, old=o, new=n) for f,o,n in edits]))
+ve("C09","equiv: Signal through a helper only called under the lock",[(PIPE,"\t\tp.wwait.Signal()\n\t\treturn n, err\n\t}\n\tif p.werr != nil {","\t\tp.wakeWriter()\n\t\treturn n, err\n\t}\n\tif p.werr != nil {"),(PIPE,"func (p *pipe) Write(b []byte) (int, error) {","func (p *pipe) wakeWriter() { p.wwait.Signal() }\n\nfunc (p *pipe) Write(b []byte) (int, error) {")],kind="equiv")
+ve("C09","helper touching wwait also called without the lock",[(PIPE,"\t\tp.wwait.Signal()\n\t\treturn n, err\n\t}\n\tif p.werr != nil {","\t\tp.wakeWriter()\n\t\treturn n, err\n\t}\n\tif p.werr != nil {"),(PIPE,"func (p *pipe) Write(b []byte) (int, error) {","func (p *pipe) wakeWriter() { p.wwait.Signal() }\n\nfunc (p *pipe) Poke() { p.wakeWriter() }\n\nfunc (p *pipe) Write(b []byte) (int, error) {")],"R1.guard/(pipe).wakeWriter")
+
 BL="pkg/libs/io/backlog/backlog.go"
 v("C18","Signal instead of Broadcast on write",BL,"bl.rwait.Broadcast()\n\t\treturn n, err","bl.rwait.Signal()\n\t\treturn n, err","R2.wake/writeSome")
 v("C18","mem store accepts overwritten offsets","pkg/libs/io/backlog/buff.go","rpos > p.wpos || rpos+p.size < p.wpos","rpos > p.wpos","R3.valid/memBuffer")
